@@ -54,7 +54,12 @@ class ReadStream(Stream):
         pin_dic = {Pin(pname(k)): d["idx"][k] for k in range(n)}
         # one swept parameter and one length-1 parameter (broadcast along the sweep in every table)
         params = {"wl": np.linspace(1.0, 2.0, len(d["S"])), "Tmp": np.array([0.375])}
-        return lk.SolvedModel(pin_dic=pin_dic, param_dic=params, Smatrix=S)
+        mod = lk.SolvedModel(pin_dic=pin_dic, param_dic=params, Smatrix=S)
+        # the caller re-uses its buffers afterwards: the tables of the result must keep the values it was solved at
+        params["wl"] *= 1000.0
+        params["Tmp"][0] = -1.0
+        params["later"] = np.array([0.0])
+        return mod
 
     @staticmethod
     def _param_columns_ok(tab, ns):
